@@ -11,6 +11,20 @@ def std_phases(nshards=None, mem_gib=12, timeout_q=900, timeout_t=7200):
     return f
 
 
+ASAN_ENV = {"ASAN_OPTIONS": "detect_leaks=1:halt_on_error=1:abort_on_error=1:allocator_may_return_null=0:symbolize=1",
+            "ASAN_SYMBOLIZER_PATH": "/usr/bin/llvm-symbolizer-14"}
+
+
+def asan_phase(timeout=3600):
+    # quick-sized workload under AddressSanitizer + LeakSanitizer, zstd's C code instrumented too; no address-space limit
+    return {"name": "asan", "profile": "asan", "sub": "asan", "mem_gib": None, "timeout_s": timeout, "env": ASAN_ENV}
+
+
+def miri_phase(timeout=3600):
+    # tiny codec-free (Compression::None) subset under the Miri interpreter
+    return {"name": "miri", "profile": "miri", "sub": "miri", "mem_gib": None, "timeout_s": timeout, "max_restarts": 3}
+
+
 COMMON_ASSUMPTIONS = [
     "verdict covers only the executions described in coverage; no claim beyond them",
     "harness binary rebuilt from /repo's working tree (path dependency, features async+verif, overflow checks on in pmtiles2)",
@@ -32,12 +46,23 @@ def reg(pid, level, rule, require=None, phases=None, assumptions=None, exhaustiv
     }
 
 
+def with_layers(*layers):
+    def f(tier):
+        ph = [{"name": "main", "profile": "checked", "mem_gib": 12, "timeout_s": 900 if tier == "quick" else 7200}]
+        if tier == "thorough":
+            for l in layers:
+                ph.append(asan_phase() if l == "asan" else miri_phase())
+        return ph
+    return f
+
+
 reg("C05", "exploration",
     "cases = valid entry lists: every list of <=2 entries (quick; <=3 thorough, quick strides the 3-entry lists) over the "
     "boundary value sets in coverage.small_list_value_sets (distinct by enumeration), plus seeded random lists up to 10^4 "
     "(quick) / 10^5 (thorough) entries (distinct by fingerprint of the entry list + codec; non-trivial = >=2 entries); each "
     "case runs encode-vs-spec, decode(own), decode(independent encoder) and, for a subset, the async twins",
-    require={"any": {"encode_matches_spec": 1000, "foreign_decode_ok": 1000, "async_twins": 50}})
+    require={"any": {"encode_matches_spec": 1000, "foreign_decode_ok": 1000, "async_twins": 50}},
+    phases=with_layers("miri"))
 
 reg("C07", "exploration",
     "cases = every tile id of zooms 0..L (L=10 quick, 15 thorough; distinct by enumeration: id -> zxy vs reference, "
@@ -54,11 +79,16 @@ reg("C09", "exploration",
     "async and consumed-bytes clauses, sampled f64 degrees incl. half-step ties (nearest-multiple clause), and the rejection "
     "classes (each magic byte, every version != 3, every unknown enum code, every truncation 0..126)",
     require={"any": {"stored_values_swept": 1000000, "degree_headers": 10000, "rejections_ok": 1000, "detail_checks": 1000}},
-    exhaustive_key="stored_sweep_exhaustive")
+    exhaustive_key="stored_sweep_exhaustive", phases=with_layers("miri"))
 
 
 def c08_phases(tier):
     ph = [{"name": "checked", "profile": "checked", "mem_gib": 12, "timeout_s": 900 if tier == "quick" else 7200}]
+    if tier == "thorough":
+        # what users of a stock release build get (arithmetic wraps silently), then the sanitizer layers
+        ph.append({"name": "plain", "profile": "plain", "sub": "plain", "mem_gib": 12, "timeout_s": 7200})
+        ph.append(asan_phase())
+        ph.append(miri_phase())
     return ph
 
 
@@ -117,7 +147,8 @@ reg("C01", "exploration",
     "generator's own map + settings; every added tile fetched, ~100 absent ids probed per archive.",
     require={"any": {"round_trips_equal": 300, "archives_with_leaf_directories": 8, "coordinate_lookups_equal": 1000,
                      "absent_ids_probed": 10000, "codec.none": 50, "codec.gzip": 50, "codec.brotli": 50, "codec.zstd": 50}},
-    assumptions=["no two generated contents collide under the library's 64-bit content hash (a collision would be reported as a violation)"])
+    assumptions=["no two generated contents collide under the library's 64-bit content hash (a collision would be reported as a violation)"],
+    phases=with_layers("asan"))
 
 
 def c02_python(cfg, tier, seed, work, agg):
@@ -325,8 +356,11 @@ def c14_python(cfg, tier, seed, work, agg):
 
 
 def c14_phases(tier):
-    return [{"name": "main", "profile": "checked", "mem_gib": 12, "timeout_s": 900 if tier == "quick" else 7200},
-            {"name": "python-gzip", "kind": "python", "fn": c14_python}]
+    ph = [{"name": "main", "profile": "checked", "mem_gib": 12, "timeout_s": 900 if tier == "quick" else 7200}]
+    if tier == "thorough":
+        ph.append(asan_phase())
+    ph.append({"name": "python-gzip", "kind": "python", "fn": c14_python})
+    return ph
 
 
 reg("C14", "exploration",
